@@ -284,6 +284,15 @@ MATHFN["ilogb"] = _cfn("ilogb", [_D], _I)
 MATHFN["nexttoward"] = _cfn("nexttoward", [_D, _LD])
 MATHFN["fma"] = _cfn("fma", [_D, _D, _D])
 MATHFN["ln"] = MATHFN["log"]
+_round1 = MATHFN["round"]
+
+
+def _round(x, *ndigits):
+    "cmath's round for one argument; Python's own two-argument form otherwise (so that such a query has a meaning to compare with)"
+    return _round1(x) if not ndigits else float(round(x, int(ndigits[0])))
+
+
+MATHFN["round"] = _round
 
 
 def _nan(tag=""):
